@@ -150,3 +150,22 @@ def source_digests():
         p = os.path.join(REPO, rel)
         out[rel] = sha(p)[:16] if os.path.exists(p) else None
     return out
+
+
+def harness_limit(exc):
+    """True when an exception was raised by the emulation layer itself (mc/pyxrt.py) for a reason other than emulated behaviour
+    of the compiled module: e.g. a Cython construct of parsing.pyx the runtime does not model. Such an exception is never a verdict."""
+    from mc import pyxrt
+    if isinstance(exc, pyxrt.CompiledBehaviour):
+        return False
+    if isinstance(exc, pyxrt.HarnessLimit):
+        return True
+    tb = exc.__traceback__
+    last = None
+    while tb is not None:
+        last = tb
+        tb = tb.tb_next
+    if last is None:
+        return False
+    fn = last.tb_frame.f_code.co_filename
+    return fn.endswith(os.path.join('mc', 'pyxrt.py')) and isinstance(exc, (TypeError, AttributeError, NameError, KeyError, IndexError, AssertionError))
